@@ -944,5 +944,14 @@ V('C11', 'model-nominal-rates-cached-per-object', 'fire', 'C11.R9', "Model.nomin
 V('C11', 'config-par-names-cached-per-object', 'silent', '', "the configuration's parameter names (python strings) become a cached_property",
   ('src/pyhf/pdf.py', 'import copy\nimport logging\n', 'import copy\nimport functools\nimport logging\n'),
   ('src/pyhf/pdf.py', '    @property\n    def par_names(self):', '    @functools.cached_property\n    def par_names(self):'))
+V('C16', 'schema-version-optional', 'fire', 'C16.R8', 'the schema no longer requires `version` while the operations read it with a plain subscript',
+  ('src/pyhf/schemas/1.0.0/defs.json', '"required": ["channels", "measurements", "observations", "version"]', '"required": ["channels", "measurements", "observations"]'))
+V('C05', 'scipy-per-fit-tolerance-kept-on-the-optimizer', 'fire', 'C05.R3', 'a per-fit tolerance is stored on the optimizer object',
+  ('src/pyhf/optimize/opt_scipy.py', "        tolerance = options.pop('tolerance', self.tolerance)\n", "        self.tolerance = options.pop('tolerance', self.tolerance)\n        tolerance = self.tolerance\n"))
+V('C12', 'requirements-collected-in-lists', 'fire', 'C12.R7', 'the requirement values of one parameter are collected in a list: equal requirements of two modifier types count twice',
+  ('src/pyhf/parameters/utils.py', '                combined_paramset.setdefault(k, set()).add(v)\n', '                combined_paramset.setdefault(k, []).append(v)\n'))
+V('C05', 'suggested-init-memoised-per-configuration', 'fire', 'C05.R1', 'suggested_init memoised per configuration object',
+  ('src/pyhf/pdf.py', 'import copy\nimport logging\n', 'import copy\nimport functools\nimport logging\n'),
+  ('src/pyhf/pdf.py', '    def suggested_init(self):\n', '    @functools.lru_cache(maxsize=None)\n    def suggested_init(self):\n'))
 V("C13", "code4-exponent-mask-strict", "fire", "C13.R3", "code 4 takes exponent 1 (a constant) exactly at |alpha| = alpha0",
   ("src/pyhf/interpolators/code4.py", "            exponents >= self.__alpha0, exponents, self.ones", "            exponents > self.__alpha0, exponents, self.ones"))
